@@ -232,7 +232,7 @@ def phase_enum(ctx, fnd):
                 oks += r.get("oks", [])
                 rejs += r.get("rejs", [])
                 for s in r["samples"]:
-                    ctx.sample({"phase": "enum", "impl": mode, **s})
+                    ctx.sample({"phase": "enum", "impl": mode, **s}, limit=2)
                 for bad in r["bad"]:
                     declared = D.limbs_to_int(bad["dst"])
                     fnd.decoder(mode, clause_of(bad["obs"], declared), declared, ["hex", bad["base"]],
@@ -283,7 +283,7 @@ def git_opinion_enum(ctx, cfg, oks, rejs):
 def phase_struct(ctx, fnd):
     cfg = "Delta_struct.cfg"
     dump = os.path.join(ctx.scratch, "struct.dump")
-    res = tlc.run("DeltaStruct.tla", cfg, workers=8, timeout=1800, dump_states=dump[:-5])
+    res = tlc.run("DeltaStruct.tla", cfg, workers=8, timeout=1800, dump_states=dump[:-5], coverage=not ctx.quick)
     ctx.add_tlc(f"DeltaStruct/{cfg} (op templates: varint widths 1..11, declared sizes to 2^77, 128 copy masks, truncations, opcode 0, overruns)", res)
     states = [s for s in D.read_dump(dump) if not s["root"]]
     os.remove(dump)
@@ -319,8 +319,11 @@ def phase_struct(ctx, fnd):
             judge_obs(ctx, fnd, mode, o, cand_cache[cid], declared, s["blen"], ["pat", s["blen"]], delta, s["prod"],
                       s["st"], s["why"], {"family": s["fam"]})
     ctx.cov["struct_families"] = sorted({s["fam"] for s in states})
-    ctx.sample({"phase": "struct", "family": states[0]["fam"], "blen": states[0]["blen"], "delta": bytes(states[0]["delta"]).hex(),
-                "reference": states[0]["st"]})
+    ex = next((s for s in states if s["fam"] == "hdrdst" and len(s["dst"]) > 9), states[0])
+    ctx.sample({"phase": "struct", "family": ex["fam"], "blen": ex["blen"], "delta": ex["delta"].hex(),
+                "declared_target_size": str(D.limbs_to_int(ex["dst"])), "reference": [ex["st"], ex["why"]],
+                "py": obs["py"][next(c for c, m in meta.items() if m[0] is ex)]["k"],
+                "rs": obs["rs"][next(c for c, m in meta.items() if m[0] is ex)]["k"]}, limit=3)
     return states
 
 
@@ -387,7 +390,7 @@ def judge_obs(ctx, fnd, mode, o, cand_sha, declared, blen, base_desc, delta, pro
 def rt_pairs_from_tlc(ctx):
     cfg = ctx.pick("Delta_rt_q.cfg", "Delta_rt_t.cfg")
     dump = os.path.join(ctx.scratch, "rt.dump")
-    res = tlc.run("DeltaRT.tla", cfg, workers=8, timeout=1800, dump_states=dump[:-5])
+    res = tlc.run("DeltaRT.tla", cfg, workers=8, timeout=1800, dump_states=dump[:-5], coverage=not ctx.quick)
     ctx.add_tlc(f"DeltaRT/{cfg} (round-trip lemma Decode(b, Encode(b,t)) = t, encoder lemmas)", res)
     pairs, refd = {}, []
     for s in D.read_dump(dump):
@@ -808,7 +811,8 @@ def phase_roundtrip(ctx, fnd):
     for rec in deltas:
         if rec.enc in MODES and rec.pid and rec.pid.startswith("h") and 8 < len(rec.delta) < 60:
             b, t = rec.bt()
-            ctx.sample({"phase": "roundtrip", "encoder": rec.enc, "base": b.hex(), "target": t.hex(), "delta": rec.delta.hex()})
+            ctx.sample({"phase": "roundtrip", "encoder": rec.enc, "base": b.hex(), "target": t.hex(), "delta": rec.delta.hex(),
+                        "decoders": {m: obs[m][rec.did]["k"] for m in MODES}, "git": gitres.get(rec.did)}, limit=4)
             break
     return deltas
 
@@ -890,7 +894,7 @@ def phase_mutations(ctx, fnd, deltas):
                       {"origin": "mutation"}, allowed=allowed[j] if tr["full"] else None)
     ctx.cov["mutations"] = {"cases": len(cases), "reference_accepts": accepted}
     b, d = meta["u0"]
-    ctx.sample({"phase": "mutation", "base": b.hex(), "delta": d.hex(), "py": obs["py"]["u0"]["k"], "rs": obs["rs"]["u0"]["k"]})
+    ctx.sample({"phase": "mutation", "base": b.hex(), "delta": d.hex(), "py": obs["py"]["u0"]["k"], "rs": obs["rs"]["u0"]["k"]}, limit=5)
 
 
 # =========================================================================== phase P: the decoder inside the pack machinery
